@@ -26,8 +26,8 @@ import (
 func main() { Main("C20", runC20) }
 
 const (
-	heartbeat  = 150 * time.Millisecond
-	settle     = 15 * time.Second // generous bound for "eventually" conditions; never reached on a healthy run
+	heartbeat = 150 * time.Millisecond
+	settle    = 15 * time.Second // generous bound for "eventually" conditions; never reached on a healthy run
 )
 
 // ---- scenario ----
@@ -108,7 +108,7 @@ type observation struct {
 	extraBad  bool
 	panicked  bool
 	secondBad bool // a second request while the pull is live did not get the same stream
-	idleTask  int // idle-close tasks posted for the pulled stream (expected: 1 unless the route says keepalive)
+	idleTask  int  // idle-close tasks posted for the pulled stream (expected: 1 unless the route says keepalive)
 	notes     []string
 }
 
@@ -532,12 +532,14 @@ func runDual(id int, pauseRegist bool) (obs string, notes []string) {
 	return fmt.Sprintf("live=%d registered=%s loserconn=%s winnerkept=%s clean=%s leak=%s both=1", live, B01(registered), B01(loserConn), B01(winnerKept), B01(clean), B01(!oneConn)), notes
 }
 
-// pullGoroutines counts goroutines that are inside the pull client or a consumption loop
+// pullGoroutines counts goroutines that are inside the pull client, a consumption loop or a stream's conversion workers
 func pullGoroutines() (n int, sample string) {
 	buf := make([]byte, 1<<22)
 	buf = buf[:runtime.Stack(buf, true)]
 	for _, g := range strings.Split(string(buf), "\n\n") {
-		if strings.Contains(g, "rtsp.(*PullClient)") || strings.Contains(g, "media.(*consumption).consume") {
+		if strings.Contains(g, "rtsp.(*PullClient)") || strings.Contains(g, "media.(*consumption).consume") ||
+			// the conversion workers of a pulled stream (a stream built for a pull that then fails must not stay alive)
+			strings.Contains(g, "rtp.(*Demuxer).process") || strings.Contains(g, "flv.(*Muxer).process") || strings.Contains(g, "mpegts.(*Muxer).process") {
 			n++
 			if sample == "" {
 				sample = g
